@@ -5,11 +5,13 @@ emitted only after an evaluation finished, completeness of the skip logic, pream
 suppression on restore, and error discipline of the restore path (torn tail).
 """
 import ast
+import copy
 
 from ..cfg import CFG
 from ..model import walk_shallow, call_name, is_self_attr, dotted_name, norm_stmt, parent, ancestors
 from ..util import (has_call, find_calls, nodes_where, escape_path, node_ast_for_effects, guards_of,
-                    assigned_value, const_str, unparse, kw, arg_or_kw, enclosing_stmt, control_ancestors, call_tail)
+                    assigned_value, const_str, unparse, kw, arg_or_kw, enclosing_stmt, control_ancestors, call_tail, canon)
+from ..util import clone
 from .. import mutate as M
 
 TECHNIQUE = "static analysis: CFG must-pass-through (write -> flush/close before next write or exit), control-dependence extraction (yield guarded by 'id not in restored'), value provenance of the restored Result, who-may-memoise rule on the restore call chain"
@@ -37,6 +39,7 @@ def run(ctx):
     r4_skip_guards(ctx)
     r5_preamble(ctx)
     r6_torn_tail(ctx)
+    plain_scan(ctx)
     r7_restore_reads_current_file(ctx)
     r8_nothing_dropped(ctx)
     r9_sink_context_owner(ctx)
@@ -47,6 +50,21 @@ def run(ctx):
     # "re-runs using any execution configuration": the triples evaluated after the interruption get the experiment seed in worker processes as well
     from . import c01
     c01.r1_seed_marshalling(ctx, rule="C02.R11")
+    # "the final Result equals that of an uninterrupted run": a resumed run evaluates the same triple with fewer chunk-mates, so what one evaluation
+    # leaves in a learner must never reach another one
+    from . import c03
+    ctx.rule("C02.R12", "an evaluation does not depend on which other triples of its chunk are (still) to be evaluated: a learner that occurs in several triples reaches "
+                        "evaluate() only as a fresh deep copy made for that evaluation (C03.R1, C03.R2, C03.R12)")
+    sub = type(ctx)(ctx.model, ctx.prop, ctx.tier, silent=True)
+    c03.r1_copy_reaches_evaluate(sub)
+    c03.r2_copy_flag(sub)
+    c03.r12_copy_flag_owner(sub)
+    for o in sub.obs:
+        o.rule = "C02.R12"
+        ctx.obs.append(o)
+    ctx.files |= sub.files
+    ctx.functions |= sub.functions
+    ctx.floor("C02.R12", "learner-copy obligations", len(sub.obs), 4)
 
 
 # ------------------------------------------------------------------------------------------ R1
@@ -539,11 +557,9 @@ def r6_torn_tail(ctx):
         truncs = [c for c in ast.walk(f_) if isinstance(c, ast.Call) and call_tail(c) == "truncate"]
         KEEP = unparse(truncs[0].args[0]) if truncs and truncs[0].args else None
         keeps = [x for x in ast.walk(f_) if isinstance(x, ast.Assign) and any(KEEP in [unparse(e) for e in (t.elts if isinstance(t, ast.Tuple) else [t])] for t in x.targets)]
-        plain = any("rfind(b'\\n')" in unparse(x) or 'rfind(b"\\n")' in unparse(x) for x in ast.walk(f_) if isinstance(x, ast.Assign)) and any("+ 1" in unparse(x.value) for x in keeps)
         gz = any(isinstance(t, ast.Attribute) and t.attr == "eof" for x in ast.walk(f_) if isinstance(x, ast.If) for t in ast.walk(x.test)) and any(isinstance(a_, ast.Attribute) and a_.attr == "unused_data" for a_ in ast.walk(f_))
         gz_branch = any(isinstance(x, ast.If) and ".gz" in unparse(x.test) and P in unparse(x.test) for x in ast.walk(f_))
         mode = [c for c in ast.walk(f_) if isinstance(c, ast.Call) and call_name(c) == "open" and len(c.args) >= 2 and const_str(c.args[1]) in ("rb+", "r+b")]
-        ctx.ob("C02.R6", EXP, repair_name, f_, "plain files are kept up to and including their last line end", plain, stmt="repair: last line end")
         ctx.ob("C02.R6", EXP, repair_name, f_, ".gz files are kept up to the end of their last complete member (member ends found with a decompressobj's eof / unused_data)", gz and gz_branch, stmt="repair: last complete member")
         ctx.ob("C02.R6", EXP, repair_name, truncs[0] if truncs else f_, "the rest is truncated in place (binary read/write open, no rewrite of the kept part)", bool(truncs) and bool(mode), stmt="repair: truncate")
     consumers = [(RES, "TransactionDecode.filter", repaired)]
@@ -584,6 +600,238 @@ def r6_torn_tail(ctx):
 
 
 # ------------------------------------------------------------------------------------------ controls
+# ------------------------------------------------------------------------------------------------------------------------
+# The plain-file branch of the repair helper, decided symbolically (no byte of it is executed): the loop is a backwards scan in blocks.  Its body
+# is turned into a substitution environment (seek -> current offset, read(n) -> a block [offset, offset+n), <block>.rfind(b'\n') -> a symbol E,
+# len(<block>) -> n, max(0, pos - K) -> a symbol S with 0 <= S < pos); the offset that is kept when a line end was found must be IDENTICALLY
+# (exact rational identity testing, algebra.py) block offset + E + 1, the value kept when none was found must keep the loop going, the found one must
+# end it, the next block must end where this one began and the first one at the end of the file.
+class _Subst(ast.NodeTransformer):
+    def __init__(self, env):
+        self.env = env
+
+    def visit_Name(self, node):
+        v = self.env.get(node.id)
+        return clone(v) if isinstance(v, ast.AST) else node
+
+
+def _tv(e, env):
+    """truth value of a test under a numeric / None environment (own evaluator over the AST of the test)"""
+    from ..algebra import ev
+    if isinstance(e, ast.BoolOp):
+        vals = [_tv(v, env) for v in e.values]
+        return all(vals) if isinstance(e.op, ast.And) else any(vals)
+    if isinstance(e, ast.UnaryOp) and isinstance(e.op, ast.Not):
+        return not _tv(e.operand, env)
+    if isinstance(e, ast.Compare):
+        ok, left = True, e.left
+        for op, right in zip(e.ops, e.comparators):
+            if isinstance(op, (ast.Is, ast.IsNot)):
+                a = _val(left, env)
+                b = _val(right, env)
+                r = (a is None and b is None) if (a is None or b is None) else a == b
+                r = r if isinstance(op, ast.Is) else not r
+            else:
+                a, b = _val(left, env), _val(right, env)
+                if a is None or b is None:
+                    r = {ast.Eq: a == b, ast.NotEq: a != b}.get(type(op))
+                    if r is None:
+                        raise ValueError("ordering None")
+                else:
+                    r = {ast.Lt: a < b, ast.LtE: a <= b, ast.Gt: a > b, ast.GtE: a >= b, ast.Eq: a == b, ast.NotEq: a != b}[type(op)]
+            ok = ok and r
+            left = right
+        return ok
+    v = _val(e, env)
+    return bool(v) if v is not None else False
+
+
+def _val(e, env):
+    from ..algebra import ev
+    if isinstance(e, ast.Constant) and e.value is None:
+        return None
+    if isinstance(e, ast.Name) and e.id in env and env[e.id] is None:
+        return None
+    if isinstance(e, ast.IfExp):
+        return _val(e.body if _tv(e.test, env) else e.orelse, env)
+    if isinstance(e, ast.BoolOp):   # `a or b` / `a and b` as values
+        v = None
+        for x in e.values:
+            v = _val(x, env)
+            t = bool(v) if v is not None else False
+            if (isinstance(e.op, ast.Or) and t) or (isinstance(e.op, ast.And) and not t):
+                return v
+        return v
+    return ev(e, env)
+
+
+def plain_scan(ctx, rule="C02.R6"):
+    from ..algebra import identically_zero, NotArithmetic
+    from fractions import Fraction
+    fn = None
+    for (rel, qual), f_ in ctx.model.functions.items():
+        if rel == EXP and any(isinstance(c, ast.Call) and call_tail(c) == "truncate" for c in ast.walk(f_)):
+            fn, name = f_, qual.split(".")[-1]
+    if fn is None:
+        ctx.ob(rule, EXP, "Experiment.run", ctx.fn(EXP, "Experiment.run"), "a repair helper (the function that truncates the result file) exists", False, stmt="repair helper")
+        return
+    trunc = next(c for c in ast.walk(fn) if isinstance(c, ast.Call) and call_tail(c) == "truncate")
+    F = unparse(trunc.func.value)
+    KEEP = unparse(trunc.args[0]) if trunc.args else None
+    gz_if = next((x for x in ast.walk(fn) if isinstance(x, ast.If) and ".gz" in unparse(x.test)), None)
+    loops = [w for st in (gz_if.orelse if gz_if is not None else []) for w in ast.walk(st) if isinstance(w, ast.While)]
+    if KEEP is None or gz_if is None or len(loops) != 1:
+        ctx.ob(rule, EXP, name, fn, "the plain branch of the repair is one backwards block scan", False, detail={"loops": len(loops)}, stmt="plain scan: form")
+        return
+    loop = loops[0]
+    env = {}        # name -> substituted AST
+    blocks = {}     # block symbol -> (offset AST, length AST)
+    state = {"pos": None, "n": 0, "clamp": []}
+
+    def sub(e):
+        return _Subst(env).visit(clone(e))
+
+    def lower(e):
+        """substitute, then replace the file / block operations by symbols"""
+        e = sub(e)
+
+        class L(ast.NodeTransformer):
+            def visit_Call(self, c):
+                c = self.generic_visit(c)
+                if isinstance(c.func, ast.Attribute) and unparse(c.func.value) == F and c.func.attr == "read" and len(c.args) == 1:
+                    state["n"] += 1
+                    b = f"__blk{state['n']}"
+                    blocks[b] = (state["pos"], c.args[0])
+                    return ast.Name(b, ast.Load())
+                if isinstance(c.func, ast.Attribute) and c.func.attr == "rfind" and isinstance(c.func.value, ast.Name) and c.func.value.id in blocks \
+                        and len(c.args) == 1 and isinstance(c.args[0], ast.Constant) and c.args[0].value == b"\n":
+                    return ast.Name("__E_" + c.func.value.id, ast.Load())
+                if isinstance(c.func, ast.Name) and c.func.id == "len" and len(c.args) == 1 and isinstance(c.args[0], ast.Name) and c.args[0].id in blocks:
+                    return clone(blocks[c.args[0].id][1])
+                if isinstance(c.func, ast.Name) and c.func.id == "max" and len(c.args) == 2 and any(isinstance(a, ast.Constant) and a.value == 0 for a in c.args):
+                    other = next(a for a in c.args if not (isinstance(a, ast.Constant) and a.value == 0))
+                    state["clamp"].append(other)
+                    return ast.Name(f"__S{len(state['clamp'])}", ast.Load())
+                return c
+
+            def visit_BinOp(self, b_):
+                b_ = self.generic_visit(b_)
+                if isinstance(b_.left, ast.Constant) and isinstance(b_.right, ast.Constant) and isinstance(b_.left.value, int) and isinstance(b_.right.value, int) \
+                        and isinstance(b_.op, ast.Pow) and 0 <= b_.right.value <= 64:
+                    return ast.Constant(b_.left.value ** b_.right.value)
+                return b_
+        return L().visit(e)
+
+    def run_block(stmts):
+        for st in stmts:
+            if isinstance(st, ast.Assign) and len(st.targets) == 1:
+                t = st.targets[0]
+                if isinstance(t, ast.Tuple) and isinstance(st.value, ast.Tuple) and len(t.elts) == len(st.value.elts):
+                    vals = [lower(v) for v in st.value.elts]
+                    for n_, v in zip(t.elts, vals):
+                        env[unparse(n_)] = v
+                else:
+                    env[unparse(t)] = lower(st.value)
+            elif isinstance(st, ast.Expr) and isinstance(st.value, ast.Call) and isinstance(st.value.func, ast.Attribute) and unparse(st.value.func.value) == F and st.value.func.attr == "seek" and len(st.value.args) == 1:
+                state["pos"] = lower(st.value.args[0])
+            elif isinstance(st, ast.If) and all(isinstance(x, ast.Assign) and len(x.targets) == 1 and isinstance(x.targets[0], ast.Name) for x in st.body + st.orelse):
+                test = lower(st.test)
+                names = [x.targets[0].id for x in st.body + st.orelse]
+                for n_ in dict.fromkeys(names):
+                    a = next((lower(x.value) for x in st.body if x.targets[0].id == n_), env.get(n_, ast.Name(n_, ast.Load())))
+                    b = next((lower(x.value) for x in st.orelse if x.targets[0].id == n_), env.get(n_, ast.Name(n_, ast.Load())))
+                    env[n_] = ast.IfExp(test, a, b)
+            elif isinstance(st, (ast.Pass,)) or (isinstance(st, ast.Expr) and isinstance(st.value, ast.Constant)):
+                continue
+            else:
+                return False
+        return True
+
+    # the statements of the plain branch in front of the loop give the initial values (seen through the assignments in front of the .gz test as well)
+    pre = []
+    for st in ast.walk(fn):
+        for body in (getattr(st, "body", None),):
+            if isinstance(body, list) and gz_if in body:
+                pre = body[:body.index(gz_if)]
+    # `size = f.seek(0, 2)`: the end of the file
+    SIZE = next((unparse(x.targets[0]) for x in pre if isinstance(x, ast.Assign) and isinstance(x.value, ast.Call) and call_tail(x.value) == "seek"
+                 and [unparse(a) for a in x.value.args] == ["0", "2"]), None)
+    straight = True
+    for st_ in [s_ for s_ in pre if isinstance(s_, ast.Assign)]:
+        if SIZE and unparse(st_.targets[0]) == SIZE:
+            env[SIZE] = ast.Name("__size", ast.Load())
+        else:
+            straight = straight and run_block([st_])
+    straight = straight and run_block(gz_if.orelse[:gz_if.orelse.index(loop)] if loop in gz_if.orelse else [])
+    init = dict(env)
+    guard = loop.test
+    cur_names = sorted({n.id for n in ast.walk(guard) if isinstance(n, ast.Name)})
+    POS = next((n for n in cur_names if n != KEEP), None)
+    pos0 = init.get(POS)
+    # inside the loop the loop variables are free symbols again
+    env[POS] = ast.Name("__pos", ast.Load())
+    env[KEEP] = ast.Name("__keep", ast.Load())
+    ok_form = straight and POS is not None and run_block(loop.body) and len(blocks) == 1 and not loop.orelse
+    ctx.ob(rule, EXP, name, loop, "the plain branch of the repair is one backwards block scan (straight-line body: seek, one read, rfind of the line end, the kept offset, the next position)", ok_form,
+           detail={"blocks": len(blocks)}, stmt="plain scan: form")
+    if not ok_form:
+        return
+    (bname, (off, length)), = blocks.items()
+    E = "__E_" + bname
+    keep_v, pos_v = env[KEEP], env[POS]
+
+    def zero(e, **subst):
+        try:
+            return identically_zero(e, subst={k: Fraction(v) for k, v in subst.items()})
+        except Exception:
+            return None
+
+    def minus(a, b):
+        return ast.BinOp(clone(a), ast.Sub(), clone(b))
+    # (1) block geometry: the block read starts at the clamped start S, ends at the old position, and the next position is S
+    geom = off is not None and zero(minus(ast.BinOp(clone(off), ast.Add(), clone(length)), ast.Name("__pos", ast.Load()))) is True \
+        and zero(minus(pos_v, off)) is True
+    clamp_ok = len(state["clamp"]) == 1 and isinstance(off, ast.Name) and off.id == "__S1"
+    if clamp_ok:
+        c = state["clamp"][0]   # pos - K with a constant K > 0
+        try:
+            k = -_val(c, {"__pos": Fraction(0)})
+            clamp_ok = k > 0 and zero(minus(ast.BinOp(clone(c), ast.Add(), ast.Constant(int(k))), ast.Name("__pos", ast.Load()))) is True
+        except Exception:
+            clamp_ok = False
+    ctx.ob(rule, EXP, name, loop, "blocks tile the file backwards: each block is [max(0, pos-K), pos) with K > 0 and the next one ends where this one began", bool(geom and clamp_ok),
+           detail={"offset": unparse(off) if off is not None else None, "length": unparse(length), "next": unparse(pos_v)}, stmt="plain scan: blocks")
+    ctx.ob(rule, EXP, name, loop, "the scan starts at the end of the file", pos0 is not None and zero(minus(pos0, ast.Name("__size", ast.Load()))) is True, stmt="plain scan: start")
+    # (2) which arm is 'found': decided by evaluating the kept value's own test with E = -1 (no line end in the block) and E >= 0
+    samples = [dict(__pos=100, __S1=36, __size=100), dict(__pos=100, __S1=36, __size=250), dict(__pos=64, __S1=0, __size=64), dict(__pos=7, __S1=0, __size=500)]
+
+    def value(e, **kw):
+        return _val(e, {k: (Fraction(v) if v is not None else None) for k, v in kw.items()})
+    try:
+        nf = {value(keep_v, **s, **{E: -1, "__keep": 0}) for s in samples}
+        found_ok = True
+        for s in samples:
+            n_ = s["__pos"] - s["__S1"]
+            for e_ in sorted({0, n_ // 2, n_ - 1}):
+                found_ok = found_ok and value(keep_v, **s, **{E: e_, "__keep": 0}) == s["__S1"] + e_ + 1
+        # (3) sentinel agreement with the loop guard
+        cont_init = _tv(guard, {POS: Fraction(100), KEEP: value(init.get(KEEP, ast.Constant(None)), __size=100)})
+        cont_nf = all(_tv(guard, {POS: Fraction(36), KEEP: v}) for v in nf)
+        stop_found = all(not _tv(guard, {POS: Fraction(36), KEEP: Fraction(k)}) for k in (1, 37, 100))
+        stop_bof = not _tv(guard, {POS: Fraction(0), KEEP: next(iter(nf))})
+    except Exception as ex:
+        ctx.ob(rule, EXP, name, loop, "the kept offset and the loop guard are plain arithmetic / comparisons", False, detail={"error": repr(ex)}, stmt="plain scan: arithmetic")
+        return
+    ctx.ob(rule, EXP, name, loop, "a line end found at offset E of the block that starts at S keeps exactly S + E + 1 bytes (position counted from the block's own start, whichever block it is)",
+           found_ok, detail={"kept": unparse(keep_v)[:160]}, stmt="plain scan: kept offset")
+    ctx.ob(rule, EXP, name, loop, "the value kept while no line end has been found keeps the scan going, a found line end (and the start of the file) ends it, and the scan is entered",
+           bool(cont_init and cont_nf and stop_found and stop_bof and len(nf) == 1), detail={"not found": sorted(map(str, nf)), "enter": cont_init, "continue": cont_nf, "stop": stop_found, "stop at 0": stop_bof},
+           stmt="plain scan: sentinel")
+    # (4) what is truncated to is the kept offset, unless everything is kept
+    gs = [canon(t) for t, pol in guards_of(enclosing_stmt(trunc), fn) if pol]
+    ctx.ob(rule, EXP, name, trunc, "the file is truncated to the kept offset whenever that differs from its size", all(KEEP in g and (SIZE or "") in g and ("!=" in g or "<" in g or ">" in g) for g in gs), detail={"guards": gs}, stmt="plain scan: truncate")
+
+
 def _memoise_from_save(tree):
     from ..mutate import find_def
     fn = find_def(tree, "Result.from_save")
@@ -639,6 +887,11 @@ def r9_sink_context_owner(ctx, rule="C02.R9"):
 
 CONTROLS = [
     ("the torn tail is left in place", EXP, M.delete_stmt("Experiment.run", M.text_has("_drop_partial_record(result_file)")), "C02.R6"),
+    ("one copy of a learner per chunk", "coba/experiments/process.py", M.replace_stmt("ProcessTasks.filter", M.text_has("lrn = deepcopy(lrn)"), "lrn = _copies.setdefault(id(lrn), deepcopy(lrn))"), "C02.R12"),
+    ("plain repair: 'not found yet' is None but a block without line end stores 0", EXP, M.chain(M.replace_expr("_drop_partial_record", "pos > 0 and (not keep)", "pos > 0 and keep is None"), M.replace_stmt("_drop_partial_record", M.text_has("pos = size"), "pos, keep = size, None")), "C02.R6"),
+    ("plain repair: kept offset counted from the end of the file", EXP, M.replace_expr("_drop_partial_record", "start + end + 1 if end >= 0 else 0", "size - (pos - start - end - 1) if end >= 0 else 0"), "C02.R6"),
+    ("plain repair: next block does not start where this one began", EXP, M.replace_stmt("_drop_partial_record", M.text_has("pos = start"), "pos = start - 1"), "C02.R6"),
+    ("plain repair: found line end does not end the scan", EXP, M.replace_expr("_drop_partial_record", "pos > 0 and (not keep)", "pos > 0"), "C02.R6"),
     ("plain repair keeps the bytes before the last line end only", EXP, M.replace_expr("_drop_partial_record", "start + end + 1 if end >= 0 else 0", "start + end if end >= 0 else 0"), "C02.R6"),
     ("worker store built from explicit keys", "coba/multiprocessing.py", M.replace_expr("CobaMultiprocessor.filter",
         "{'openml_semaphore': spawn_context.Semaphore(3), **CobaContext.store}", "{'openml_semaphore': spawn_context.Semaphore(3), 'experiment_seed': CobaContext.store.get('seed')}"), "C02.R11"),
